@@ -265,7 +265,7 @@ def frames(root):
     return {m.full_name: frame_of(m) for m in root.members}
 
 
-def first_frame_diff(fa, fb, upto=None, rel=0.0):
+def first_frame_diff(fa, fb, upto=None, rel=0.0, abs_tol=0.0):
     """Compare two frames() dicts (rows [0, upto)); returns None or a description of the first mismatch."""
     for name in fa:
         if name not in fb:
@@ -282,7 +282,7 @@ def first_frame_diff(fa, fb, upto=None, rel=0.0):
         if rel == 0.0:
             eq = (a == b) | (np.isnan(a) & np.isnan(b))
         else:
-            eq = (np.abs(a - b) <= rel * (1 + np.abs(a) + np.abs(b))) | (np.isnan(a) & np.isnan(b))
+            eq = (np.abs(a - b) <= abs_tol + rel * (1 + np.abs(a) + np.abs(b))) | (np.isnan(a) & np.isnan(b))
         if not eq.all():
             i, j = np.argwhere(~eq)[0]
             return {"node": name, "what": "value", "row": int(i), "col": ca[j], "a": float(a[i, j]), "b": float(b[i, j])}
